@@ -871,7 +871,13 @@ coap_add_observer(coap_resource_t *resource,
   if (coap_get_data(request, &len, &data)) {
     /* This could be a large bodied FETCH */
     s->pdu->max_size = 0;
-    coap_add_data(s->pdu, len, data);
+    if (!coap_add_data(s->pdu, len, data)) {
+      /* notifications would be computed from a request without its body */
+      coap_delete_pdu(s->pdu);
+      coap_delete_cache_key(cache_key);
+      coap_free_type(COAP_SUBSCRIPTION, s);
+      return NULL;
+    }
   }
   if (cache_key == NULL) {
     cache_key = coap_cache_derive_key_w_ignore(session, request,
